@@ -6,13 +6,13 @@ SPEC = {
         {"name": "pad-arithmetic", "pkg": O4, "kind": "plain", "run": "^TestVerifC09PadArithmetic$",
          "quick": {"shards": 8, "timeout": 300}, "thorough": {"shards": 16, "timeout": 3000}},
         {"name": "end-to-end", "pkg": O4, "kind": "rapid", "run": "^TestVerifC09EndToEnd$", "common": {"shrinktime": "5s"},
-         "quick": {"checks": 150, "shards": 6, "timeout": 300},
+         "quick": {"checks": 250, "shards": 8, "timeout": 300},
          "thorough": {"checks": 1500, "shards": 16, "timeout": 3000}},
         {"name": "seed-while-writing", "pkg": O4, "kind": "rapid", "run": "^TestVerifC09SeedWhileWriting$", "common": {"shrinktime": "5s"},
-         "quick": {"checks": 60, "shards": 2, "timeout": 300},
+         "quick": {"checks": 100, "shards": 3, "timeout": 300},
          "thorough": {"checks": 600, "shards": 8, "timeout": 3000}},
         {"name": "seed-while-writing-race", "pkg": O4, "kind": "rapid", "run": "^TestVerifC09SeedWhileWriting$", "common": {"shrinktime": "5s"},
-         "quick": {"checks": 40, "shards": 1, "timeout": 300, "race": True},
+         "quick": {"checks": 60, "shards": 2, "timeout": 300, "race": True},
          "thorough": {"checks": 300, "shards": 6, "timeout": 3000, "race": True}},
         {"name": "paranoid-termination", "pkg": O4, "kind": "plain", "run": "^TestVerifC09ParanoidTermination$",
          "quick": {"shards": 8, "timeout": 300}, "thorough": {"shards": 16, "timeout": 1500}},
